@@ -230,21 +230,40 @@ def rule_b(ctx, out):
     out.info["fallback_sites_with_log"] = n_fb
 
     # ---- reader ---------------------------------------------------------------------------------------------
+    # evaluated (own interpreter) with the specification generator replaced by a model: the log is consulted with the keys of the
+    # re-generated specification, exactly the logged sub-blocks get a specification to check and their logged id sequence
+    from ..core.interp import ModuleInterp
+    from ..core.minieval import Unsupported, Raised
     r = ctx.func(f"{GASOL}.generate_sfs_dicts_from_log")
-    log_param = r.params[1]
-    rl = [n for n in own_nodes(r.node) if isinstance(n, ast.For) and isinstance(n.target, ast.Name)]
-    good = False
-    for l in rl:
-        kv = l.target.id
-        subs = [s for s in ast.walk(l) if isinstance(s, ast.Subscript) and is_name(s.value, log_param)]
-        tests = [c for c in ast.walk(l) if isinstance(c, ast.Compare) and isinstance(c.ops[0], (ast.In, ast.NotIn)) and is_name(c.comparators[0], log_param)]
-        it = assigns_in(r, l.iter)
-        if subs and all(is_name(s.slice, kv) for s in subs) and tests and all(is_name(c.left, kv) for c in tests) and it:
-            good = True
-    if good:
-        out.ok({"reader": r.qual, "key": "specification key of the re-generated sub-block"})
+    specs = {"blk_0": {"spec": 0}, "blk_1": {"spec": 1}, "blk_2": {"spec": 2}}
+    subs = [["PUSH 1", "LOG0"], ["LOG0", "ADD", "SSTORE"], ["SSTORE", "POP"]]
+    class B:
+        block_name = "blk"
+        block_id = 3
+
+        def get_block_name(self):
+            return self.block_name
+    mi = ModuleInterp(ctx, max_steps=20000, obj_types=(B,),
+                      extern={"compute_original_sfs_with_simplifications": lambda *a, **k: ({"syrup_contract": dict(specs)}, [list(x) for x in subs])})
+    bad = None
+    for log in ({}, {"blk_1": ["ADD_0", "SWAP1"]}, {"blk_0": ["PUSH_0"], "blk_2": ["POP"], "other_7": ["MUL_0"]}):
+        try:
+            got = mi.call(r, B(), dict(log), None)
+        except Raised as e:
+            bad = f"raises {e.what} on the log {log}"
+            break
+        except Unsupported as e:
+            raise AnalysisError(f"generate_sfs_dicts_from_log cannot be evaluated abstractly: {e}")
+        want_seq = {k: v for k, v in log.items() if k in specs}
+        want_spec = {k: specs[k] for k in want_seq}
+        parts = list(got) if isinstance(got, tuple) else []
+        if not (dict(specs) in parts and want_spec in parts and want_seq in parts and [list(x) for x in subs] in parts and set(specs) in parts):
+            bad = f"for the log {log} it returns {got!r}; due: all specifications, {want_spec}, the sub-block list, {want_seq} and the set of keys"
+            break
+    if bad is None:
+        out.ok({"reader": r.qual, "key": "specification key of the re-generated sub-block", "logs_evaluated": 3})
     else:
-        out.bad("generate_sfs_dicts_from_log:reader-key-mismatch", "the log is not looked up with the key of the re-generated specification", where(r))
+        out.bad("generate_sfs_dicts_from_log:reader-key-mismatch", f"the log is not looked up with the keys of the re-generated specification: {bad}", where(r))
 
 
 def assigns_in(r, it):
